@@ -125,12 +125,22 @@ theorem raises_excessive_as_limiter (cfg : Cfg) (k : Kind) :
   cases k <;> rfl
 
 /-- the behaviours outside the quantifier: a TaskTimeout raised by the handler is answered like
-an overrun; `ReplyAndDisconnect()` and any other BaseException leave `_throttled_request` -/
+an overrun; `ReplyAndDisconnect()` and any other BaseException leave `_throttled_request` -
+then message processing is dead, the connection is aborted (repair F34: no session is left open
+but deaf), and whatever completes later is lost -/
 theorem outside_quantifier (v : Variant) (cfg : Cfg) (k : Kind) :
     throttled v cfg .raisesTaskTimeout k = throttled v cfg .overruns k ∧
     (throttled v cfg .raisesBase k).escapes = true ∧
-    (throttled v cfg .replyAndDisconnectNoArg k).escapes = true := by
-  cases k <;> simp [throttled, ladder]
+    (throttled v cfg .replyAndDisconnectNoArg k).escapes = true ∧
+    (∀ (s : Served) (it : Item), s.alive = true → s.closed = false →
+      (throttled v cfg it.outcome it.kind).escapes = true →
+      serveOne v cfg s it = { s with alive := false, closed := true, lost := s.lost ++ [it.id] }) := by
+  refine ⟨?_, ?_, ?_, ?_⟩
+  · cases k <;> simp [throttled, ladder]
+  · cases k <;> simp [throttled, ladder]
+  · cases k <;> simp [throttled, ladder]
+  · intro s it ha hc he
+    simp [serveOne, ha, hc, he]
 
 /-- a notification is never answered, whatever its handler did, and within the quantifier
 nothing escapes either -/
@@ -214,7 +224,7 @@ stopping before an escaping exception) are answered and counted, the rest is cut
 theorem serve_spec (cfg : Cfg) (items : List Item) :
     serve .repaired cfg items =
       { alive := !dies cfg items,
-        closed := (live cfg items).any (closes cfg),
+        closed := (live cfg items).any (closes cfg) || dies cfg items,
         replies := ((live cfg items).filter fun it => !it.batch).flatMap (expectedReply cfg),
         batchParts := ((live cfg items).filter fun it => it.batch).flatMap (expectedReply cfg),
         errors := ((live cfg items).map fun it => (stepOf cfg it).errors).sum,
@@ -307,7 +317,7 @@ theorem session_survives (cfg : Cfg) (items : List Item) (h : ∀ it ∈ items, 
     have := h it (List.mem_filter.mp hit).1
     exact ⟨this.1, clean_ne_excessive this⟩
   rw [serve_spec, hl, hc, hd]
-  refine ⟨rfl, hclosed, rfl, ?_, ?_, ?_⟩
+  refine ⟨rfl, by simp [hclosed], rfl, ?_, ?_, ?_⟩
   · simp only []
     rw [flatMap_expected cfg _ (hscope _), List.filter_filter]
     congr 1
@@ -586,6 +596,90 @@ example :
     (schedule { slots := 1 } tis).map (fun ev => (ev.1, ev.2.id)) = [(7, 0), (30, 1), (30, 2)] ∧
     (runTimed .repaired {} { slots := 1 } tis).replies =
       [(0, .result 1), (1, .error (-102) msgBusy), (2, .error (-102) msgBusy)] := by decide
+
+/-! ## A slow peer and the abort of a dead session -/
+
+theorem wireOne_base (v : Variant) (cfg : Cfg) (total drain : Nat) (w : Wire) (ev : Nat × Item) :
+    (wireOne v cfg total drain w ev).base = serveOne v cfg w.base ev.2 := by
+  obtain ⟨t, it⟩ := ev
+  simp only [wireOne]
+  repeat' split
+  all_goals rfl
+
+/-- **The wire layer adds, it does not change**: whatever the drain delay of the peer, what is
+handed to the transport, counted and lost is exactly `serve`'s state - so every theorem about
+`serve` speaks about the slow-peer runs too. -/
+theorem wire_base (v : Variant) (cfg : Cfg) (drain : Nat) (evs : List (Nat × Item)) :
+    (serveWire v cfg drain evs).base = serve v cfg (evs.map (·.2)) := by
+  have : ∀ (total : Nat) (l : List (Nat × Item)) (w : Wire),
+      (l.foldl (wireOne v cfg total drain) w).base = (l.map (·.2)).foldl (serveOne v cfg) w.base := by
+    intro total l
+    induction l with
+    | nil => intro w; rfl
+    | cons ev rest ih =>
+      intro w
+      simp only [List.foldl_cons, List.map_cons]
+      rw [ih, wireOne_base]
+  exact this _ evs {}
+
+theorem wireOne_not_aborted (v : Variant) (cfg : Cfg) (total drain : Nat) (w : Wire)
+    (ev : Nat × Item) (hw : w.abortedAt = none)
+    (he : (throttled v cfg ev.2.outcome ev.2.kind).escapes = false) :
+    (wireOne v cfg total drain w ev).abortedAt = none := by
+  obtain ⟨t, it⟩ := ev
+  simp only [wireOne, hw, he]
+  repeat' split
+  all_goals simp_all
+
+/-- **No abort within the quantifier.**  If no completion lets an exception escape - in
+particular if every behaviour is one the property lists (`never_escapes`) - the connection is
+never aborted and everything handed to the transport reaches the peer, however slowly it
+reads: the delivered replies are `serve`'s replies, the delivered batch response its batch
+response. -/
+theorem wire_never_aborted (v : Variant) (cfg : Cfg) (drain : Nat) (evs : List (Nat × Item))
+    (h : ∀ ev ∈ evs, (throttled v cfg ev.2.outcome ev.2.kind).escapes = false) :
+    (serveWire v cfg drain evs).abortedAt = none ∧
+    deliveredReplies drain (serveWire v cfg drain evs) = (serve v cfg (evs.map (·.2))).replies ∧
+    deliveredBatch drain (evs.map (·.2)) (serveWire v cfg drain evs) =
+      batchResponse (evs.map (·.2)) (serve v cfg (evs.map (·.2))) := by
+  have hab : ∀ (total : Nat) (l : List (Nat × Item)) (w : Wire), w.abortedAt = none →
+      (∀ ev ∈ l, (throttled v cfg ev.2.outcome ev.2.kind).escapes = false) →
+      (l.foldl (wireOne v cfg total drain) w).abortedAt = none := by
+    intro total l
+    induction l with
+    | nil => intro w hw _; exact hw
+    | cons ev rest ih =>
+      intro w hw hl
+      simp only [List.foldl_cons]
+      exact ih _ (wireOne_not_aborted v cfg total drain w ev hw (hl ev (by simp)))
+        (fun e he => hl e (by simp [he]))
+  have h0 : (serveWire v cfg drain evs).abortedAt = none := hab _ evs {} rfl h
+  refine ⟨h0, ?_, ?_⟩
+  · simp only [deliveredReplies, h0, wire_base]
+  · simp only [deliveredBatch, h0, wire_base]
+
+/-- non-vacuity, and what an escape does with a slow peer (drain 5 s): requests 0, 1, 3 complete
+at 4, 7, 8 s and are answered; the handler of request 4 raises CancelledError at 9 s - the
+connection is aborted, and of the three replies only the one written at 4 s had left the send
+buffer.  With a peer that reads at once all three got through. -/
+example :
+    let evs : List (Nat × Item) := [(4, ⟨0, .request, false, .raisesProtocolError (-32602) 2⟩),
+      (7, ⟨1, .request, false, .raisesOther⟩), (8, ⟨3, .request, false, .returns (.value 904)⟩),
+      (9, ⟨4, .request, false, .raisesBase⟩)]
+    (serveWire .repaired {} 5 evs).abortedAt = some 9 ∧
+    (serveWire .repaired {} 5 evs).base.closed = true ∧
+    deliveredReplies 5 (serveWire .repaired {} 5 evs) = [(0, .error (-32602) 2)] ∧
+    deliveredReplies 0 (serveWire .repaired {} 0 evs) =
+      [(0, .error (-32602) 2), (1, .error (-32603) msgInternal), (3, .result 904)] := by decide
+
+/-- a reply-and-disconnect at 6 s with a slow peer: the close waits for the buffer (until 11 s);
+a handler that escapes at 8 s, inside that window, aborts the connection and the buffered reply
+is discarded; at 12 s it would have been cancelled with the connection and nothing is lost -/
+example :
+    let evs (t : Nat) : List (Nat × Item) := [(6, ⟨0, .request, false, .replyAndDisconnect (.value 1)⟩),
+      (t, ⟨1, .request, false, .raisesBase⟩)]
+    deliveredReplies 5 (serveWire .repaired {} 5 (evs 8)) = [] ∧
+    deliveredReplies 5 (serveWire .repaired {} 5 (evs 12)) = [(0, .result 1)] := by decide
 
 /-! ## F9 (pinned tree; repaired by a `fix:` commit) -/
 
